@@ -45,8 +45,13 @@ func metadataEndpoint(url string) map[string]any {
 // limit of 8 KiB for request line + headers): credentials of 64 KiB in a header, cookie or query must reach the authenticators.
 const readLimit = 256 << 10
 
+// trustedProxies: the peers (the harness itself, on loopback) whose X-Forwarded-Method names the method of the original
+// request (a documented option of the decision service).
+var trustedProxies = []string{"127.0.0.1/32", "::1/128"}
+
 func prototypes(c *config.Configuration, srv string) {
 	c.Serve.Decision.BufferLimit.Read = readLimit
+	c.Serve.Decision.TrustedProxies = &trustedProxies
 	p := c.Prototypes
 	for _, d := range protos {
 		base := srv
@@ -118,8 +123,14 @@ func prototypes(c *config.Configuration, srv string) {
 	p.Finalizers = append(p.Finalizers, config.Mechanism{ID: "subfin", Type: "header", Config: config.MechanismConfig{"headers": map[string]any{"X-Sub": "{{ .Subject.ID }}"}}})
 }
 
+// rule: the chain on a route prefix of its own: the prefix itself and, through a free wildcard, everything below it
+// (encoded slashes allowed, decoded or not: both documented settings let such a path reach the pipeline).
 func (c chain) rule() rconfig.Rule {
-	r := rconfig.Rule{ID: c.ID, Matcher: rconfig.Matcher{Routes: []rconfig.Route{{Path: "/" + c.ID}}}}
+	r := rconfig.Rule{ID: c.ID, Matcher: rconfig.Matcher{Routes: []rconfig.Route{{Path: "/" + c.ID}, {Path: "/" + c.ID + "/**"}}}}
+	r.EncodedSlashesHandling = rconfig.EncodedSlashesOn
+	if len(c.Elems)%2 == 0 {
+		r.EncodedSlashesHandling = rconfig.EncodedSlashesOnNoDecode
+	}
 	for _, e := range c.Elems {
 		step := config.MechanismConfig{"authenticator": e.Proto}
 		conf := map[string]any{}
@@ -449,7 +460,12 @@ func TestC04(t *testing.T) {
 		"parameters, parameter casing, malformed parameters, header sent twice, other casing of the media type; credential-free noise: an unparsable unrelated query parameter, " +
 		"the credential cookie repeated empty, an unrelated malformed cookie pair before/after the credential cookies); remote systems (identity, introspection, JWKS, metadata endpoint) answering " +
 		"presented credentials with the status codes 400, 401, 403, 404, 409, 422, 429, 500, 502, 503; credential values (valid and rejected ones, every kind) padded to just above 4 KiB, 8 KiB, " +
-		"64 KiB in every location. Order-sensitive part, run first against the fresh instances: for a sub-pool of chains in which a rejection must end the authentication, the whole class catalogue " +
+		"64 KiB in every location. Dimensions that are not credentials, for every location: the request method (GET, HEAD, DELETE, OPTIONS, PUT, PATCH, POST - bodies with every one of them; its own " +
+		"method, or the method named by X-Forwarded-Method of a trusted proxy calling the decision service with GET/POST, the Envoy entry point gets it in the method attribute); the request path below the " +
+		"route prefix of the rule (every rule also matches <prefix>/** with encoded slashes allowed): sub path, encoded slashes, encoded and raw non-ASCII, encoded '%' and '?', sub-delims, and - through the " +
+		"Envoy entry point only, whose client sends every second target with the query inside the path attribute as Envoy does - a literal '%', broken and truncated escapes; characters inside reference " +
+		"tokens, sessions and junk values (valid and rejected ones; the remote system knows exactly the minted byte string) that a decoder may refuse or rewrite: '%' at the end / before non-hex / truncated, " +
+		"valid escapes, '+', '=', quotes (not in cookies). Order-sensitive part, run first against the fresh instances: for a sub-pool of chains in which a rejection must end the authentication, the whole class catalogue " +
 		"of every authenticator (every valid / rejected / endpoint-failing / malformed class, a status code, one value of every foreign kind) plus the random mix, sent one request at a time in " +
 		"seeded random order, twice in two orders, judged by the same per-request model (what an instance was asked before must not matter). Oracle: documentation-based " +
 		"3-way classification per authenticator + chain semantics of the statement; compared with status, echoed subject and the recorded sequence of executed authenticators. " +
@@ -463,6 +479,11 @@ func TestC04(t *testing.T) {
 		"the introspection test server reports valid JWTs as active (it stands for the issuer of these tokens), everything unknown as inactive",
 		"an HTTP answer 200 of the decision service = authenticated; any other status = authentication failed (401/5xx not distinguished by the statement)",
 		"credential shapes the statement leaves open (undecodable/unstructured Basic value, non-JWT for jwt, blank value) are only required never to be accepted by that authenticator",
+		"credentials present in a request count whatever its method is (GET, HEAD, DELETE, OPTIONS with a body included; neither the statement nor the documentation of the credential sources names a method) "+
+			"and whatever the path matched by the rule looks like",
+		"a credential value is an opaque byte string: header, cookie (RFC 6265 cookie-octets) and JSON values are taken as they are, query and form values are percent-encoded by the client; "+
+			"the remote system accepts exactly the byte string that was issued",
+		"a request target net/http refuses (broken percent escape in the path) cannot reach the HTTP decision service: such paths are presented to the Envoy entry point only",
 		"parameters of a Content-Type (well-formed or not) and a repeated Content-Type line with the same media type do not make a form/JSON body unusable; "+
 			"a media type written with upper case letters leaves open whether the body is usable (both readings allowed)")
 
@@ -600,6 +621,19 @@ func TestC04(t *testing.T) {
 			r.Require(k, r.Counter(k), 20)
 		}
 	}
+	// method, path and characters of the value as dimensions of every credential location
+	for _, v := range []string{"accept", "reject"} {
+		min := map[string]int64{"accept": 1, "reject": 3}[v]
+		r.Require("body_credentials_with_bodyless_method_"+v, r.Counter("body_credentials_with_bodyless_method_"+v), 8*min)
+		r.Require("body_credentials_with_forwarded_bodyless_method_"+v, r.Counter("body_credentials_with_forwarded_bodyless_method_"+v), 2*min)
+		r.Require("undecodable_path_credentials_in_query_"+v, r.Counter("undecodable_path_credentials_in_query_"+v), 6*min)
+		for _, loc := range []string{"header", "cookie", "query", "body"} {
+			k := "credential_chars_in_" + loc + "_" + v
+			r.Require(k, r.Counter(k), 2*min)
+		}
+	}
+	r.Count("envoy_requests_with_query_inside_path_attribute", int(app.EnvoyTargetsWithQueryInPath.Load()))
+	r.Require("envoy_requests_with_query_inside_path_attribute", app.EnvoyTargetsWithQueryInPath.Load(), 200)
 	r.Require("sequence_steps", r.Counter("sequence_steps"), 500)
 	// which authenticator type meets which transition how often depends on the seed (a single cell may well stay at 1 or 2): the
 	// evidence lists every cell, required are the totals per transition and per type
@@ -674,7 +708,7 @@ func remoteSystem(p *protoDef, k, cls string) (string, int) {
 // runCase sends one request to every entry point and compares the answers with the model. seq != nil: the request is a
 // step of the serial sequence.
 func runCase(r *core.Run, st *stats, eps []entry, c chain, lr lreq, seq *sequence) {
-	w := lr.wire("/" + c.ID)
+	w := lr.wire("/"+c.ID, false)
 	views, outs := model(c, lr)
 	o := eps[0].send(w)
 
@@ -718,6 +752,30 @@ func runCase(r *core.Run, st *stats, eps []entry, c chain, lr lreq, seq *sequenc
 				}
 				if it, _ := lr.at(v.Slot); it.Sep != "" {
 					r.Count("header_credentials_with_several_blanks_after_scheme_"+v.Verdict.String(), 1)
+				}
+				// the dimensions that do not belong to the credentials: what the authenticator reading this location has to
+				// decide for which method, below which path, with which characters in the value
+				method := lr.effectiveMethod()
+				if lr.Carrier != "" {
+					method += "_forwarded"
+				}
+				r.Count("method_"+method+"_credentials_in_"+loc, 1)
+				if loc == "body" && requestMethodUsuallyLacksBody(lr.effectiveMethod()) {
+					r.Count("body_credentials_with_bodyless_method_"+v.Verdict.String(), 1)
+					if lr.Carrier != "" {
+						r.Count("body_credentials_with_forwarded_bodyless_method_"+v.Verdict.String(), 1)
+					}
+				}
+				if lr.Path != "" {
+					r.Count("path_"+lr.Path+"_credentials_in_"+loc, 1)
+					if pathVariantByName(lr.Path).EnvoyOnly {
+						r.Count("undecodable_path_credentials_in_"+loc+"_"+v.Verdict.String(), 1)
+					}
+				}
+				if v.Chars != "" {
+					r.Count("credential_chars_"+v.Chars+"_in_"+loc, 1)
+					r.Count("credential_chars_in_"+loc+"_"+v.Verdict.String(), 1)
+					r.Count("credential_chars_"+tn+"_"+v.Verdict.String(), 1)
 				}
 				if v.Slot[0] == 'B' && (lr.CT != "" || lr.BodyEnc != "") {
 					r.Count("body_credentials_with_other_content_type_"+v.Verdict.String(), 1)
@@ -821,7 +879,11 @@ func runCase(r *core.Run, st *stats, eps []entry, c chain, lr lreq, seq *sequenc
 	var atHTTP *observed
 	for n, ep := range eps {
 		if n > 0 {
+			w = lr.wire("/"+c.ID, ep.Name == entryEnvoy)
 			o = ep.send(w)
+		}
+		if lr.Path != "" {
+			r.Count("path_"+lr.Path+"_"+ep.Name, 1)
 		}
 		if o.Status == http.StatusOK {
 			r.Count("answer_authenticated", 1)
@@ -911,6 +973,11 @@ func runSequence(r *core.Run, st *stats, eps []entry, mt *minter, chains []chain
 			runCase(r, st, eps, s.c, s.lr, seq)
 		}
 	}
+}
+
+// requestMethodUsuallyLacksBody: the methods for which a body is unusual (not forbidden).
+func requestMethodUsuallyLacksBody(m string) bool {
+	return m == "GET" || m == "HEAD" || m == "DELETE" || m == "OPTIONS"
 }
 
 func noiseNote(w wire) string {
